@@ -26,6 +26,8 @@ type rtCase struct {
 	Vals   []reflect.Value
 	Cfg    lib.EncodeCfg
 	CfgStr string
+	// MayRefuse: the type is outside what the encoder is known to accept; a refusal is an accepted outcome
+	MayRefuse bool
 }
 
 var compressions = []avro.Compression{avro.CompressionNull, avro.CompressionDeflate, avro.CompressionSnappy}
@@ -95,6 +97,8 @@ var sizeSweep = func() []int {
 	return out
 }()
 
+var giantType = gen.StructOf(gen.Fld("S", "s", false, gen.Leaf(gen.KString)), gen.Fld("M", "m", false, gen.MapOf(gen.Leaf(gen.KString))), gen.Fld("B", "b", false, gen.Leaf(gen.KBytes)), gen.Fld("N", "n", false, gen.Leaf(gen.KInt64)))
+
 var blockSizes = []int{0, 1, 2, 16, 64, 100, 256, 1000, 4096, 1 << 20}
 
 // genRTCase builds the scenario for case index i.
@@ -130,6 +134,81 @@ func genRTCase(c *core.Ctx, i int, vo gen.ValOpts) *rtCase {
 		rc.Cfg.BlockSize = []int{0, L, 1 << 20}[(j/3)%3]
 		rc.Cfg.Plan = lib.FlushPlan{After: map[int]int{}, AtEnd: 1}
 		rc.CfgStr = fmt.Sprintf("%s/bs=%d/size-sweep L=%d/n=%d", rc.Cfg.Compression, rc.Cfg.BlockSize, L, len(rc.Vals))
+		return rc
+	}
+	if j := i - nstatic*reps - len(sizeSweep)*3; j >= 0 && j < 9 {
+		// strings, map keys/values and byte slices of a megabyte and more (lengths that need a four-byte varint),
+		// several in a row so that later rows are written into buffers grown by earlier ones
+		rc.T = giantType
+		rc.Static = nil
+		lens := [][]int{{1<<20 - 1, 1 << 20, 1<<20 + 1}, {2<<20 + 7, 1<<20 + 3, 1 << 20}, {100, 1 << 20, 1 << 21}}[j%3]
+		for k, L := range lens {
+			v := reflect.New(rc.T.RT()).Elem()
+			b := bytes.Repeat([]byte{byte('a' + k)}, L)
+			for x := 0; x < L; x += 997 {
+				b[x] = byte(r.Uint32()%26) + 'A'
+			}
+			v.Field(0).SetString(string(b))
+			if k == 1 {
+				m := reflect.MakeMap(v.Field(1).Type())
+				m.SetMapIndex(reflect.ValueOf("big"), reflect.ValueOf(string(b[:L/2+L/3])))
+				v.Field(1).Set(m)
+				v.Field(2).SetBytes(b[:L-5])
+			}
+			v.Field(3).SetInt(int64(L))
+			rc.Vals = append(rc.Vals, v)
+		}
+		rc.Cfg.Compression = compressions[j%3]
+		rc.Cfg.BlockSize = []int{0, 8 << 20, 1 << 20}[(j/3)%3]
+		rc.Cfg.Plan = lib.FlushPlan{After: map[int]int{}, AtEnd: 1}
+		rc.CfgStr = fmt.Sprintf("%s/bs=%d/giant-strings %v", rc.Cfg.Compression, rc.Cfg.BlockSize, lens)
+		return rc
+	}
+	if j := i - nstatic*reps - len(sizeSweep)*3 - 9; j >= 0 && j < 6 {
+		// two distinct struct types with the same name and package inside one record
+		ta, tb := statictypes.LocalTwins()
+		root := reflect.StructOf([]reflect.StructField{
+			{Name: "A", Type: ta, Tag: `json:"a"`}, {Name: "B", Type: tb, Tag: `json:"b"`},
+			{Name: "LB", Type: reflect.SliceOf(tb), Tag: `json:"lb"`}, {Name: "MA", Type: reflect.MapOf(reflect.TypeOf(""), ta), Tag: `json:"ma"`},
+			{Name: "PB", Type: reflect.PointerTo(tb), Tag: `json:"pb"`},
+		})
+		if j%2 == 1 {
+			root = reflect.StructOf([]reflect.StructField{{Name: "B", Type: tb, Tag: `json:"b"`}, {Name: "A", Type: ta, Tag: `json:"a"`}, {Name: "LA", Type: reflect.SliceOf(ta), Tag: `json:"la"`}})
+		}
+		rc.T = gen.FromReflect(root)
+		rc.Static = nil
+		for k := 0; k < 4; k++ {
+			rc.Vals = append(rc.Vals, gen.NewValue(r, rc.T, gen.ValOpts{Mode: gen.ModeFull, NoBigStrings: true, NoInnerNil: true}))
+		}
+		rc.Cfg.Compression = compressions[j%3]
+		rc.Cfg.BlockSize = 64
+		rc.Cfg.Plan = lib.FlushPlan{After: map[int]int{}, AtEnd: 1}
+		rc.CfgStr = fmt.Sprintf("%s/bs=64/same-named-types %d", rc.Cfg.Compression, j)
+		return rc
+	}
+	if j := i - nstatic*reps - len(sizeSweep)*3 - 15; j >= 0 && j < 6 {
+		// int8 fields: schema generation maps them to long; whether the encoder accepts them is its choice, but an
+		// encoder that accepts them writes their values
+		rc.T = gen.StructOf(gen.Fld("A", "a", false, gen.Leaf(gen.KInt8)), gen.Fld("B", "b", false, gen.Leaf(gen.KInt8)), gen.Fld("C", "c", false, gen.Leaf(gen.KInt8)),
+			gen.Fld("N", "n", false, gen.Leaf(gen.KInt64)), gen.Fld("O", "o", true, gen.Leaf(gen.KInt8)), gen.Fld("D", "d", false, gen.Leaf(gen.KInt8)))
+		rc.Static = nil
+		rc.MayRefuse = true
+		for k := 0; k < 6; k++ {
+			v := reflect.New(rc.T.RT()).Elem()
+			for f := 0; f < v.NumField(); f++ {
+				v.Field(f).SetInt(int64(int8(r.Uint32())))
+			}
+			if k == 0 {
+				v.Field(0).SetInt(-3)
+				v.Field(1).SetInt(5)
+				v.Field(2).SetInt(7)
+			}
+			rc.Vals = append(rc.Vals, v)
+		}
+		rc.Cfg.Compression = compressions[j%3]
+		rc.Cfg.BlockSize = 0
+		rc.Cfg.Plan = lib.FlushPlan{After: map[int]int{}, AtEnd: 1}
+		rc.CfgStr = fmt.Sprintf("%s/bs=0/int8-fields", rc.Cfg.Compression)
 		return rc
 	}
 	n := 1 + r.IntN(6)
@@ -264,6 +343,13 @@ func runRoundTrip(c *core.Ctx, i int, doC01, doC02 bool) {
 	rc := genRTCase(c, i, vo)
 	c.Eval(1)
 	file, err := rc.encode()
+	if err != nil && rc.MayRefuse {
+		c.Count("optional-kinds-refused", 1)
+		return
+	}
+	if err == nil && rc.MayRefuse {
+		c.Count("optional-kinds-accepted", 1)
+	}
 	if err != nil {
 		c.Violate("encode-error", fmt.Sprintf("encoder refused a supported type %s: %v", rc.T, err), rc.replay(nil))
 		return
